@@ -1,5 +1,10 @@
 """C05 - 2-D histogram bins every point exactly once, independent of thread schedule (DESIGN.md C05)."""
+import os
 import warnings
+
+# an index one past the upper end of an axis is a silent out-of-bounds write in the compiled kernel: make it raise
+# (must be set before numba is imported; affects this check's worker processes only)
+os.environ.setdefault("NUMBA_BOUNDSCHECK", "1")
 
 import numpy as np
 from hypothesis import strategies as st
@@ -56,10 +61,19 @@ case_st = st.fixed_dictionaries({
                                               "same_as_prev": st.sampled_from([False, False, True])}), max_size=3),
     "call_op": st.sampled_from([None, "sum", "mean"]),
     "api": st.sampled_from(["public", "public", "kernel"]),
+    # kernel only: a different number of bins along y
+    "res_y": st.sampled_from([None, None, 1, 2, 3, 7, 33]),
+    # public API, resolution >= 2: which of the four limits are given (None = follow "limits")
+    "per_limit": st.one_of(st.none(), st.none(), st.lists(st.booleans(), min_size=4, max_size=4)),
+    # all finite coordinates of an axis identical (degenerate automatic range), at 0, a negative or a positive value
+    "identical_x": st.sampled_from([None] * 12 + [0.0, -3.5, 2.5]),
+    "identical_y": st.sampled_from([None] * 12 + [0.0, -3.5, 2.5]),
+    "gen": st.just(2),
 })
 
 
-def _axis(rng, n, res, lo, span, log, p_out, p_edge, p_special, one_bin):
+def _axis(rng, n, res, lo, span, log, p_out, p_edge, p_special, one_bin, identical=None, gen=1):
+    # gen: generator version stored in the case (saved replays of version 1 must keep producing the same points)
     """-> (values, (lower, upper) in linear space)"""
     if log:
         lo_t = np.log10(abs(lo) + 1.0)      # transformed lower limit
@@ -77,7 +91,9 @@ def _axis(rng, n, res, lo, span, log, p_out, p_edge, p_special, one_bin):
     far = (u >= p_out) & (u < p_out + 0.03)
     ib = np.where(near_lo, -1, ib)
     ib = np.where(near_hi, res, ib)
-    ib = np.where(far, rng.choice([-7, res + 5], size=n), ib)
+    # far outside, including indices that wrap into range when truncated to 32 bits
+    far_bins = [-7, res + 5] if gen < 2 else [-7, res + 5, 2 ** 32 + res // 2, -(2 ** 32) + res // 2, 2 ** 31]
+    ib = np.where(far, rng.choice(far_bins, size=n), ib)
     edge = rng.random_sample(n) < p_edge
     f = np.where(edge, rng.choice([0.0, 1e-14, 1.0 - 1e-14], size=n), f)
     t = lo_t + (ib + f) * d
@@ -90,8 +106,12 @@ def _axis(rng, n, res, lo, span, log, p_out, p_edge, p_special, one_bin):
                         np.nextafter(np.nextafter(upper, -np.inf), -np.inf), upper, np.nextafter(lower, -np.inf)])
     choices = np.where(np.abs(choices) < 1e-300, 0.0, choices)        # no denormals: |x| >= 1e-300 or exactly 0
     x = np.where(ulp, rng.choice(choices, size=n), x)
+    if identical is not None:
+        x = np.full(n, 1.0 if (log and identical <= 0) else float(identical))
     sp = rng.random_sample(n) < p_special
-    x = np.where(sp, rng.choice([np.nan, np.inf, -np.inf], size=n), x)
+    # (on a log axis zero and negative numbers have no finite transformed coordinate either)
+    x = np.where(sp, rng.choice([np.nan, np.inf, -np.inf] + ([0.0, -1.0, -x.max() if n else -1.0] if (log and gen >= 2) else []),
+                                size=n), x)
     lower = 10.0 ** lo_t if log else lo_t
     upper = 10.0 ** (lo_t + span_t) if log else lo_t + span_t
     return x, (float(lower), float(upper))
@@ -137,10 +157,11 @@ def _frac_coord(x, edges, log):
     return t
 
 
-def _expected(tx, ty, res, values, epsx=0.0, epsy=0.0):
+def _expected(tx, ty, res, values, epsx=0.0, epsy=0.0, resy=None):
     """-> strict counts, loose extra counts, touched mask, sums (strict points only)
     epsx/epsy: additional uncertainty of the fractional coordinates (float resolution of x relative to a bin)"""
-    eps = 1e-9 * max(res, 1)
+    resy = res if resy is None else resy
+    eps = 1e-9 * max(res, resy, 1)
     fin = np.isfinite(tx) & np.isfinite(ty)
     ax0, ax1 = np.floor(tx - eps - epsx), np.floor(tx + eps + epsx)
     ay0, ay1 = np.floor(ty - eps - epsy), np.floor(ty + eps + epsy)
@@ -148,20 +169,20 @@ def _expected(tx, ty, res, values, epsx=0.0, epsy=0.0):
     strict = fin & ~tol
     ix = np.floor(tx)
     iy = np.floor(ty)
-    inr = strict & (ix >= 0) & (ix < res) & (iy >= 0) & (iy < res)
-    counts = np.zeros((res, res), dtype=np.int64)
+    inr = strict & (ix >= 0) & (ix < res) & (iy >= 0) & (iy < resy)
+    counts = np.zeros((resy, res), dtype=np.int64)
     np.add.at(counts, (iy[inr].astype(int), ix[inr].astype(int)), 1)
-    sums = np.zeros((len(values), res, res))
+    sums = np.zeros((len(values), resy, res))
     for k, v in enumerate(values):
         np.add.at(sums[k], (iy[inr].astype(int), ix[inr].astype(int)), v[inr])
-    loose = np.zeros((res, res), dtype=np.int64)
+    loose = np.zeros((resy, res), dtype=np.int64)
     for i in np.nonzero(tol)[0]:
         # every cell between the two extreme assignments is admissible
         a0, a1 = int(max(ax0[i], -1)), int(min(ax1[i], res))
-        b0, b1 = int(max(ay0[i], -1)), int(min(ay1[i], res))
+        b0, b1 = int(max(ay0[i], -1)), int(min(ay1[i], resy))
         for a in range(a0, a1 + 1):
             for b in range(b0, b1 + 1):
-                if 0 <= a < res and 0 <= b < res:
+                if 0 <= a < res and 0 <= b < resy:
                     loose[b, a] += 1
     return counts, loose, int(tol.sum()), sums
 
@@ -171,10 +192,16 @@ def binning(case, r):
     res, n = case["res"], case["n"]
     logx = case["logx"] or case["loglog"]
     logy = case["logy"] or case["loglog"]
+    gen = case.get("gen", 1)
+    resy = (case.get("res_y") or res) if case["api"] == "kernel" else res
     x, xl = _axis(rng, n, res, case["lo"], case["span"], logx, case["p_outside_near"], case["p_edge"],
-                  case["p_special"], case["one_bin"])
-    y, yl = _axis(rng, n, res, case["lo"] * 0.5 + 1.0, case["span"] * 2.0, logy, case["p_outside_near"], case["p_edge"],
-                  case["p_special"], case["one_bin"])
+                  case["p_special"], case["one_bin"], case.get("identical_x"), gen)
+    y, yl = _axis(rng, n, resy, case["lo"] * 0.5 + 1.0, case["span"] * 2.0, logy, case["p_outside_near"], case["p_edge"],
+                  case["p_special"], case["one_bin"], case.get("identical_y"), gen)
+    if case.get("identical_x") is not None or case.get("identical_y") is not None:
+        r.label("identical_coordinates")
+    if resy != res:
+        r.label("kernel_nx_ne_ny")
     values = []
     for li, spec in enumerate(case["layers"]):
         if li > 0 and spec.get("same_as_prev"):
@@ -184,6 +211,14 @@ def binning(case, r):
     limits = case["limits"]
     explicit_x = limits in ("explicit", "mixed")
     explicit_y = limits == "explicit"
+    # which of xmin, xmax, ymin, ymax are passed
+    given = [explicit_x, explicit_x, explicit_y, explicit_y]
+    if case.get("per_limit") and res >= 2 and case["api"] == "public":
+        given = list(case["per_limit"])
+        explicit_x = given[0] and given[1]
+        explicit_y = given[2] and given[3]
+        if given[0] != given[1] or given[2] != given[3]:
+            r.label("one_sided_limits")
     finx = np.isfinite(x) & ((x > 0) if logx else True)
     finy = np.isfinite(y) & ((y > 0) if logy else True)
     r.label("api_" + case["api"], "limits_" + limits, f"log_{int(logx)}{int(logy)}")
@@ -203,17 +238,17 @@ def binning(case, r):
                 out, counts = hist2d(x=np.ascontiguousarray(tx_in, dtype=np.float64),
                                      y=np.ascontiguousarray(ty_in, dtype=np.float64),
                                      values=np.ascontiguousarray(vals, dtype=np.float64),
-                                     xmin=float(lxl[0]), xmax=float(lxl[1]), nx=res, ymin=float(lyl[0]), ymax=float(lyl[1]), ny=res)
+                                     xmin=float(lxl[0]), xmax=float(lxl[1]), nx=res, ymin=float(lyl[0]), ymax=float(lyl[1]), ny=resy)
             except Exception as e:
                 r.bad(["kernel-raises", type(e).__name__], repr(e))
                 return
         tx = (tx_in - lxl[0]) / (lxl[1] - lxl[0]) * res
-        ty = (ty_in - lyl[0]) / (lyl[1] - lyl[0]) * res
+        ty = (ty_in - lyl[0]) / (lyl[1] - lyl[0]) * resy
         with np.errstate(all="ignore"):
             ec, el, ntol, es = _expected(tx, ty, res, list(vals),
                                          _frac_eps(tx_in, np.linspace(lxl[0], lxl[1], res + 1), False),
-                                         _frac_eps(ty_in, np.linspace(lyl[0], lyl[1], res + 1), False))
-        _judge(case, r, counts, None, ec, el, ntol, es, [None] * len(vals), out, tx, ty, res, kernel=True)
+                                         _frac_eps(ty_in, np.linspace(lyl[0], lyl[1], resy + 1), False), resy=resy)
+        _judge(case, r, counts, None, ec, el, ntol, es, [None] * len(vals), out, tx, ty, res, kernel=True, resy=resy)
         return
 
     if n == 0 or not np.any(finx & finy) and (not explicit_x or not explicit_y):
@@ -242,10 +277,9 @@ def binning(case, r):
     kw = {"plot": False, "resolution": res, "logx": case["logx"], "logy": case["logy"], "loglog": case["loglog"]}
     if case["call_op"]:
         kw["operation"] = case["call_op"]
-    if explicit_x:
-        kw.update(xmin=xl[0], xmax=xl[1])
-    if explicit_y:
-        kw.update(ymin=yl[0], ymax=yl[1])
+    for nm, g, val in (("xmin", given[0], xl[0]), ("xmax", given[1], xl[1]), ("ymin", given[2], yl[0]), ("ymax", given[3], yl[1])):
+        if g:
+            kw[nm] = val
     with warnings.catch_warnings(), np.errstate(all="ignore"):
         warnings.simplefilter("ignore")
         try:
@@ -262,12 +296,22 @@ def binning(case, r):
         r.bad(["grid-size"], f"{len(p.x)}x{len(p.y)} centres for resolution {res}")
         return
     # requested limits must be spanned exactly
-    for nm, e, lim, expl in (("x", ex, xl, explicit_x), ("y", ey, yl, explicit_y)):
-        if expl and e is not None:
-            if abs(e[0] - lim[0]) > 1e-9 * max(abs(lim[0]), abs(lim[1] - lim[0])) or abs(e[-1] - lim[1]) > 1e-9 * max(
-                    abs(lim[1]), abs(lim[1] - lim[0])):
-                r.bad(["grid-does-not-span-limits", nm], f"edges {e[0]!r}..{e[-1]!r} for requested {lim}")
-                return
+    for nm, e, lim, glo, ghi, v, fin in (("x", ex, xl, given[0], given[1], x, finx), ("y", ey, yl, given[2], given[3], y, finy)):
+        if e is None:
+            continue
+        if glo != ghi and np.any(fin) and ((glo and float(np.max(v[fin])) == lim[0]) or (ghi and float(np.min(v[fin])) == lim[1])):
+            # the automatic side coincides with the requested one: a zero-width request, which osyris widens
+            r.label("skipped_degenerate_one_sided_range")
+            return
+        if not (e[-1] > e[0]):
+            # a one-sided request whose automatic side fell on the wrong side of it: nothing is stated for that call
+            r.label("skipped_inverted_one_sided_range")
+            return
+        scale = max(abs(lim[0]), abs(lim[1]), abs(e[-1] - e[0]))
+        if (glo and abs(e[0] - lim[0]) > 1e-9 * scale) or (ghi and abs(e[-1] - lim[1]) > 1e-9 * scale):
+            r.bad(["grid-does-not-span-limits", nm], f"edges {e[0]!r}..{e[-1]!r} for requested "
+                  f"{lim[0] if glo else 'auto'}..{lim[1] if ghi else 'auto'}")
+            return
     got_layers = p.layers
     nl = max(len(values), 1)
     if len(got_layers) != nl:
@@ -276,6 +320,15 @@ def binning(case, r):
     if ex is None or ey is None:
         # single bin with automatic limits: every finite point must be counted
         inside = finx & finy
+        for e, v, lg, fin in ((ex, x, logx, finx), (ey, y, logy, finy)):
+            if e is None and np.any(fin):
+                with np.errstate(all="ignore"):
+                    vv = np.log10(v[fin]) if lg else v[fin]
+                ext = float(np.max(vv) - np.min(vv))
+                if 0 < ext < 256 * np.spacing(float(np.max(np.abs(vv)))):
+                    # points a few ulp apart: the 5% padding of the automatic range is below the float resolution
+                    r.label("skipped_grid_below_float_resolution")
+                    return
         edge_pts = np.zeros(n, dtype=bool)
         for e, v, lg in ((ex, x, logx), (ey, y, logy)):
             if e is not None:
@@ -290,6 +343,21 @@ def binning(case, r):
             tot = float(np.ma.filled(d0, 0).sum())
             if not (lo_n <= tot <= hi_n):
                 r.bad(["auto-single-bin-count"], f"count {tot}, expected {lo_n}..{hi_n} finite in-range points")
+        elif lo_n == hi_n:
+            # no point on an edge: the single bin holds exactly the points `inside`
+            r.label("single_bin_layers_judged")
+            for k, (lay, v, op) in enumerate(zip(got_layers, values, eff_ops)):
+                data = lay["data"]
+                masked = bool(np.ma.getmaskarray(data).reshape(-1)[0])
+                if masked != (lo_n == 0):
+                    r.bad(["mask", "single-bin"], f"layer {k}: masked={masked} with {lo_n} points in the bin")
+                    return
+                if lo_n:
+                    want = float(v[inside].sum()) / (lo_n if op == "mean" else 1)
+                    got = float(np.ma.getdata(data).reshape(-1)[0])
+                    if abs(got - want) > 1e-12 * abs(want):
+                        r.bad(["layer-values", "single-bin", "op=" + str(op)], f"layer {k}: {got!r} expected {want!r} ({lo_n} points)")
+                        return
         return
     # a grid whose bins are narrower than the float resolution of the coordinates (automatic limits around
     # points that differ by a few ulp) cannot be judged
@@ -302,9 +370,10 @@ def binning(case, r):
     tx = _frac_coord(x, ex, logx)
     ty = _frac_coord(y, ey, logy)
     # automatic limits must contain every finite point
-    for nm, t, expl, fin in (("x", tx, explicit_x, finx & finy), ("y", ty, explicit_y, finx & finy)):
-        if not expl and np.any(fin):
-            if np.nanmin(t[fin]) < -1e-9 or np.nanmax(t[fin]) > res + 1e-9:
+    for nm, t, glo, ghi, fin in (("x", tx, given[0], given[1], finx & finy), ("y", ty, given[2], given[3], finx & finy)):
+        if np.any(fin):
+            # an automatic limit is padded by 5% of the range: every finite point lies strictly inside it
+            if (not glo and np.nanmin(t[fin]) <= 0) or (not ghi and np.nanmax(t[fin]) >= res):
                 r.bad(["auto-limits-exclude-points", nm], f"fractional coordinates {np.nanmin(t[fin])!r}..{np.nanmax(t[fin])!r} "
                       f"outside [0,{res}]")
                 return
@@ -321,12 +390,13 @@ def binning(case, r):
     _judge(case, r, None, counts_layer, ec, el, ntol, es, ops, [g["data"] for g in got_layers], tx, ty, res)
 
 
-def _judge(case, r, counts, counts_layer, ec, el, ntol, es, ops, got_data, tx, ty, res, kernel=False):
+def _judge(case, r, counts, counts_layer, ec, el, ntol, es, ops, got_data, tx, ty, res, kernel=False, resy=None):
+    resy = res if resy is None else resy
     touched = el > 0
     # non-triviality
     with np.errstate(all="ignore"):
         near_out = np.isfinite(tx) & np.isfinite(ty) & (((tx > -1) & (tx < 0)) | ((tx > res) & (tx < res + 1)) |
-                                                        ((ty > -1) & (ty < 0)) | ((ty > res) & (ty < res + 1)))
+                                                        ((ty > -1) & (ty < 0)) | ((ty > resy) & (ty < resy + 1)))
     r.nontrivial(bool(ec.max(initial=0) >= 2 and near_out.any()))
     if near_out.any():
         r.label("near_outside_points")
@@ -450,6 +520,9 @@ def schedule(case, r):
                     res_s = np.array([np.ma.filled(l["data"], 0.0) for l in p.layers])
                     res_c = None
                 results.append((t, rep, res_c, res_s))
+    except Exception as e:
+        r.bad(["schedule", "raises", type(e).__name__, case["api"]], f"{e!r} (n={n}, res={res}, {case['conc']})")
+        return
     finally:
         numba.set_num_threads(old)
     touched = el > 0
